@@ -96,6 +96,39 @@ def _ctor_deps(summ):
     return out
 
 
+def _unites_parallel_labels(fn) -> bool:
+    """The elimination step itself copes with parallel edges: wherever it files a label under a state in a local table
+    (`table[k] = label`), it first looks whether `k` is there already (`k in table`, `table.get(k)`, `table.pop(k)`,
+    `table.setdefault(k, ..)`, or the old `table[k]` is part of the new value) - so a second label for the same
+    neighbour is united with the first instead of replacing it.  Then the 'merged before every step' discipline is
+    not needed for this step (the closed form still needs it)."""
+    if fn is None:
+        return False
+    stores = []
+    for st in ast.walk(fn):
+        if isinstance(st, ast.Assign):
+            for t in st.targets:
+                if isinstance(t, ast.Subscript) and isinstance(t.value, ast.Name):
+                    stores.append((st, t.value.id, ast.unparse(t.slice)))
+    if not stores:
+        return False
+    for st, tab, key in stores:
+        looked = False
+        for x in ast.walk(fn):
+            if isinstance(x, ast.Compare) and len(x.ops) == 1 and isinstance(x.ops[0], (ast.In, ast.NotIn)) and \
+                    ast.unparse(x.left) == key and ast.unparse(x.comparators[0]) == tab:
+                looked = True
+            if isinstance(x, ast.Call) and isinstance(x.func, ast.Attribute) and x.func.attr in ("get", "pop", "setdefault") and \
+                    ast.unparse(x.func.value) == tab and x.args and ast.unparse(x.args[0]) == key:
+                looked = True
+        if any(isinstance(x, ast.Subscript) and isinstance(x.ctx, ast.Load) and ast.unparse(x.value) == tab and
+               ast.unparse(x.slice) == key for x in ast.walk(st.value)):
+            looked = True
+        if not looked:
+            return False
+    return True
+
+
 def orn_simulate(summ):
     """Walk the events of the to_regex closure in program order.  ORN(x) (parallel edges of x merged) is established
     by x._create_or_transitions(), destroyed by x.add_transition(..) outside of it, required on entry of
@@ -112,11 +145,12 @@ def orn_simulate(summ):
                 orn = True
                 continue
             if name in ("_remove_state", "_get_bi_transitions") and not inside_merge:
-                if not orn:
+                tolerant = name == "_remove_state" and _unites_parallel_labels(ev.sub.func.node if ev.sub.func is not None else None)
+                if not orn and not tolerant:
                     viol.append((ev, "%s entered without a preceding _create_or_transitions()" % name))
                 after = walk(ev.sub, orn, inside_merge)
                 if name == "_remove_state":
-                    if not after:
+                    if not after and not tolerant:
                         viol.append((ev, "_remove_state returns with unmerged parallel edges (the next elimination "
                                          "step starts from them)"))
                     orn = after
